@@ -812,7 +812,13 @@ func replayEdge(c *core.Ctx, b *Built, p *valPayload, n int) ([]finding, error) 
 	// rotates with the edge number and the seed
 	f1, f2 := (n+int(c.Seed))%4, ((n+int(c.Seed))/4)%4
 	seenPair := map[string]bool{}
-	for _, fp := range [][2]int{{0, 0}, {2, 2}, {3, 3}, {f1, f2}} {
+	pairs := [][2]int{{0, 0}, {2, 2}, {3, 3}, {f1, f2}}
+	if c.Thorough() && b.Corpus.Name != "probe" && b.Corpus.Name != "cases" {
+		// the additional corpora of the thorough tier (K = 3): one pure pair rotating with the edge, and the mixed one
+		pure := [][2]int{{0, 0}, {2, 2}, {3, 3}}[n%3]
+		pairs = [][2]int{pure, {f1, f2}}
+	}
+	for _, fp := range pairs {
 		s1, _ := mk(p.From, fp[0])
 		s2, want2 := mk(p.To, fp[1])
 		pk := fmt.Sprint(s1["op"], s2["op"])
